@@ -466,7 +466,9 @@ def canon(x, depth=0):
     """Deterministic description of a result (no addresses, bounded depth)."""
     if depth > 7:
         return "..."
-    if x is None or isinstance(x, (bool, int, str, bytes)):
+    if isinstance(x, (str, bytes)):
+        return _ADDR.sub("", repr(x))      # reprs of functions end up inside formatted strings
+    if x is None or isinstance(x, (bool, int)):
         return repr(x)
     if isinstance(x, float):
         return repr(x)
@@ -601,6 +603,9 @@ def fake_tree():
 '''
 
 
+_PRELUDE_CODE = compile(PRELUDE, "<c20 prelude>", "exec")
+
+
 def make_fake_root():
     """A stand-in for PyROOT without behaviour: enough for 'import ROOT' and isinstance tests."""
     m = types.ModuleType("ROOT")
@@ -692,7 +697,7 @@ def _mk_env(sp, needs=()):
         importlib.import_module(nd)
     if needs:
         env["lena"] = sys.modules["lena"]
-    exec(PRELUDE, env)
+    exec(_PRELUDE_CODE, env)
     return env
 
 
